@@ -56,7 +56,13 @@ def main():
         rc, out = sh([PY, os.path.join(d, "demo.py")], cwd=a.wt, env=env)
         res["demo_mutant"] = rc
         res["demo_mutant_out"] = out.strip().split("\n")[0][:200]
-        checks = a.checks.split(",") if a.checks else [prop]
+        checks = [prop]
+        if a.checks:
+            checks = []
+            for c in a.checks.split(","):
+                c = prop if c == "OWN" else c
+                if c not in checks:
+                    checks.append(c)
         res["checks"] = {}
         for c in checks:
             env2 = dict(os.environ, VERIF_REPO=a.wt)
